@@ -170,6 +170,9 @@ impl Report {
                 lines.push(format!("  detail: {}", f.detail));
             }
         }
+        if crate::mc::past_soft_deadline() && self.cap_hit.is_none() {
+            self.cap_hit = Some("soft wall cap reached: the search loops stopped early".into());
+        }
         // evidence
         self.coverage
             .insert("exhaustive".into(), json!(self.exhaustive && self.cap_hit.is_none()));
@@ -214,6 +217,9 @@ impl Report {
         );
         if unlisted > 0 {
             1
+        } else if crate::mc::past_soft_deadline() {
+            eprintln!("MACHINERY: soft wall cap reached without any finding - the exploration is incomplete (not a verdict)");
+            2
         } else {
             0
         }
@@ -252,6 +258,8 @@ pub fn load_known(root: &std::path::Path) -> Vec<Known> {
 /// `VERIF_WALL_CAP_S` overrides) is a machinery failure (exit 2), never a verdict and never a hang.
 pub fn start_watchdog(tier: Tier) {
     let cap = std::env::var("VERIF_WALL_CAP_S").ok().and_then(|s| s.parse::<u64>().ok()).unwrap_or(if tier.is_quick() { 900 } else { 8 * 3600 });
+    // soft cap: a third of the hard cap (quick: 5 min) - search loops stop, the run reports what it has
+    crate::mc::set_soft_deadline(std::env::var("VERIF_SOFT_CAP_S").ok().and_then(|s| s.parse::<u64>().ok()).unwrap_or(cap / 3));
     std::thread::spawn(move || {
         std::thread::sleep(std::time::Duration::from_secs(cap));
         eprintln!("MACHINERY: wall cap of {cap} s exceeded - the check did not finish (not a verdict)");
